@@ -159,6 +159,13 @@ class C06(Property):
                 rng, config, max_stmts=rng.choice([1, 2, 3, 4, 6, 8]),
                 extended=ext)
             out.inc("probe.generated-label")
+            if rng.random() < (0.6 if use_new else 0.25) and text.isascii():
+                # make sure non-ASCII labels are common enough
+                extra = rng.choice(['NOTE = "caf\u00e9 \u20ac"\n',
+                                    "/* \u00b0 \u65e5\u672c */\n",
+                                    "S = '\U0001d11e'\n"])
+                text = extra + text
+                toks = None     # token positions no longer apply
             if ext:
                 out.inc("probe.extended-vocabulary")
             source = "generated-extended" if ext else "generated"
@@ -167,6 +174,8 @@ class C06(Property):
         kinds = [k for k in ("trunc", "chars", "tokens", "chan-eof",
                              "value-loss", "garbage") if rng.random() < 0.6] \
             or ["trunc"]
+        if use_new and "trunc" not in kinds and not text.isascii():
+            kinds.append("trunc")     # pvl.new has its own bytes path
 
         custom = (not use_new) and rng.random() < 0.1
 
@@ -215,8 +224,11 @@ class C06(Property):
                 do({"config": config, "text": t, "faulted": True}, k > 10)
         if "trunc" in kinds and not text.isascii():
             data = text.encode()
-            for k in sorted(set(rng.randrange(len(data) + 1)
-                                for _ in range(25))):
+            # byte offsets inside multi-byte characters are the point
+            inside = [i for i, b in enumerate(data) if 0x80 <= b < 0xC0]
+            cuts = set(rng.randrange(len(data) + 1) for _ in range(15))
+            cuts.update(rng.sample(inside, min(10, len(inside))))
+            for k in sorted(cuts):
                 out.inc("fault.bytes-truncate")
                 try:
                     data[:k].decode()
